@@ -6,6 +6,7 @@ mod out;
 mod rng;
 mod sync;
 mod tf;
+mod txc;
 mod wd;
 mod world;
 
@@ -58,6 +59,7 @@ fn main() {
         "hdr" => hdr::run(&mut out, &ctx),
         "blk" => blk::run(&mut out, &ctx),
         "tf" => tf::run(&mut out, &ctx),
+        "txc" => txc::run(&mut out, &ctx),
         other => { eprintln!("unknown stream {}", other); std::process::exit(2); }
     }
     out.finish(&[("seed", seed.to_string()), ("stream", out::json_str(&stream))]);
